@@ -181,11 +181,17 @@ func runC15(c *Ctx) {
 		why  string
 	}
 	fieldUses := map[string][]use{}
-	checkUses := func(name string, v ssa.Value, t types.Type, at func(ssa.Instruction) string) {
+	seenUse := map[ssa.Value]bool{}
+	var checkUses func(name string, v ssa.Value, t types.Type, at func(ssa.Instruction) string)
+	checkUses = func(name string, v ssa.Value, t types.Type, at func(ssa.Instruction) string) {
 		if ok, why := safeShared(t); ok {
 			fieldUses[name] = append(fieldUses[name], use{"load", true, why})
 			return
 		}
+		if seenUse[v] {
+			return
+		}
+		seenUse[v] = true
 		for _, r := range core.Referrers(v) {
 			d := ""
 			okUse := false
@@ -207,7 +213,13 @@ func runC15(c *Ctx) {
 				okUse, d = true, "comparison"
 			case *ssa.MapUpdate:
 				okUse, d = x.Map != v, "map update"
-			case *ssa.Phi, *ssa.ChangeType, *ssa.MakeInterface, *ssa.ChangeInterface:
+			case *ssa.Phi:
+				okUse, d = true, "copy"
+				checkUses(name, x, t, at) // the merged value is still the shared object on this edge
+			case *ssa.ChangeType:
+				okUse, d = true, "copy"
+				checkUses(name, x, t, at)
+			case *ssa.MakeInterface, *ssa.ChangeInterface:
 				okUse, d = true, "copy"
 			case *ssa.FieldAddr:
 				okUse, d = true, "field read"
@@ -228,6 +240,8 @@ func runC15(c *Ctx) {
 					okUse, d = true, "len"
 				case core.BuiltinName(cc) == "delete" || core.BuiltinName(cc) == "clear" || core.BuiltinName(cc) == "append":
 					okUse, d = false, core.BuiltinName(cc)
+				case cc.IsInvoke() && cc.Method.Name() == "Write" && len(cc.Args) == 1:
+					okUse, d = true, "argument of Write (io.Writer contract: Write must not modify the slice, even temporarily)"
 				default:
 					callee := core.StaticCallee(x)
 					if callee != nil && callee.Origin() != nil {
@@ -238,7 +252,14 @@ func runC15(c *Ctx) {
 					} else if callee != nil && callee.Pkg != nil && (callee.Pkg.Pkg.Path() == "bytes" || callee.Pkg.Pkg.Path() == "strings") {
 						okUse, d = true, "read-only argument of "+callee.Pkg.Pkg.Path()+"."+callee.Name()
 					} else if callee != nil && c.P.InScope(callee) {
-						okUse, d = true, "argument of "+fkey(callee)+" (checked at its own uses: C12.R3 for maps)"
+						okUse, d = true, "argument of "+fkey(callee)+" (followed into the callee)"
+						if !cc.IsInvoke() {
+							for i, a := range cc.Args {
+								if a == v && i < len(callee.Params) {
+									checkUses(name, callee.Params[i], t, at)
+								}
+							}
+						}
 					} else {
 						okUse, d = false, "argument of "+callDescr(x)
 					}
